@@ -562,6 +562,10 @@ func (e *evalContext) evaluateTypedExpr(x *expr, accept *schema.Schema) (*value,
 	v := e.evaluateExpr(x)
 	vv := validator{}
 	ok := vv.validateValue(v, accept, validationLoc{x: x})
+	if !ok && !vv.diags.HasErrors() && !v.containsUnknowns() {
+		// A false subschema rejects a concrete value without reporting anything: never fail silently.
+		vv.errorf(validationLoc{x: x}, "value is not allowed by the schema")
+	}
 	e.diags.Extend(vv.diags...)
 	return v, ok
 }
